@@ -46,7 +46,8 @@ static void gen_queues(void) {
 		static const int prios[] = { DISPATCH_QUEUE_PRIORITY_HIGH, DISPATCH_QUEUE_PRIORITY_DEFAULT, DISPATCH_QUEUE_PRIORITY_LOW, DISPATCH_QUEUE_PRIORITY_BACKGROUND };
 		n->gprio = prios[g_n(4)];
 		// F6 (DESIGN.md 6): PRIORITY_HIGH maps to the background root on this platform; harmless here
-		n->overcommit = 0;
+		n->overcommit = (n->kind == QK_GLOBAL && g_chance(1, 4)) ? 1 : 0;   // DISPATCH_QUEUE_OVERCOMMIT root queues: one thread per wake-up
+		n->qosattr = (n->kind == QK_SERIAL || n->kind == QK_CONC) && g_chance(1, 4) ? 1 + (int)g_n(5) : 0; n->relpri = n->qosattr ? -(int)g_n(8) : 0;
 		if (n->kind == QK_SERIAL || n->kind == QK_CONC) {
 			// target: an earlier non-global, non-main queue (depth limited) or the default root
 			if (i > 0 && g_chance(55, 100)) {
@@ -321,7 +322,8 @@ static void render_program(void) {
 	for (int i = 0; i < nq; i++) {
 		h_sample(" q%d=%s", i, qknames[Q[i].kind]);
 		if (Q[i].target >= 0) h_sample("->q%d", Q[i].target);
-		if (Q[i].kind == QK_GLOBAL) h_sample("(prio %d)", Q[i].gprio);
+		if (Q[i].kind == QK_GLOBAL) h_sample("(prio %d%s)", Q[i].gprio, Q[i].overcommit ? ", overcommit" : "");
+		if (Q[i].qosattr) h_sample("[qos %d%+d]", Q[i].qosattr, Q[i].relpri);
 		if (Q[i].inactive) h_sample("[inactive]");
 		if (Q[i].retarget_to >= 0) h_sample("[retargeted to q%d during the run]", Q[i].retarget_to);
 		if (Q[i].width) h_sample("[width %d]", Q[i].width);
@@ -336,12 +338,13 @@ static void create_queues(void) {
 		qnode *n = &Q[i];
 		dispatch_queue_t tq = n->target >= 0 ? Q[n->target].q : NULL;
 		switch (n->kind) {
-		case QK_GLOBAL: n->q = dispatch_get_global_queue(n->gprio, 0); break;
+		case QK_GLOBAL: n->q = dispatch_get_global_queue(n->gprio, n->overcommit ? 2 /* DISPATCH_QUEUE_OVERCOMMIT */ : 0); break;
 		case QK_MAIN: n->q = dispatch_get_main_queue(); break;
 		case QK_WORKLOOP: n->q = (dispatch_queue_t)dispatch_workloop_create(n->label); break;
 		default: {
 			dispatch_queue_attr_t a = n->kind == QK_CONC ? DISPATCH_QUEUE_CONCURRENT : DISPATCH_QUEUE_SERIAL;
 			if (n->inactive) a = dispatch_queue_attr_make_initially_inactive(a);
+			if (n->qosattr) { static const unsigned cls[6] = { 0, QOS_CLASS_BACKGROUND, QOS_CLASS_UTILITY, QOS_CLASS_DEFAULT, QOS_CLASS_USER_INITIATED, QOS_CLASS_USER_INTERACTIVE }; a = dispatch_queue_attr_make_with_qos_class(a, cls[n->qosattr], n->relpri); }
 			if (n->inactive && tq && g_chance(1, 2)) {
 				// retarget while inactive: created on the default root, then moved
 				n->q = dispatch_queue_create(n->label, a);
@@ -391,6 +394,12 @@ static void check_specific(qitem *it) {
 		RES.counters[QC_SPECIFIC_CHECKS]++;
 		if (got != want)
 			h_viol("get-specific", "item %d (op #%d %s on q%d): dispatch_get_specific(key%d)=%p, model says %p", it->id, it->op_idx, opnames[it->opkind], it->q, k, got, want);
+	}
+	// the current queue is the one the item was submitted to, whatever thread runs it
+	if (Q[it->q].kind == QK_SERIAL || Q[it->q].kind == QK_CONC || Q[it->q].kind == QK_WORKLOOP) {
+		const char *cur = dispatch_queue_get_label(DISPATCH_CURRENT_QUEUE_LABEL);
+		if (!cur || strcmp(cur, Q[it->q].label))
+			h_viol("current-label", "item %d (op #%d %s on q%d): the current queue's label is '%s', not '%s'", it->id, it->op_idx, opnames[it->opkind], it->q, cur ? cur : "(null)", Q[it->q].label);
 	}
 	for (int q = it->q; q >= 0; q = Q[q].target) {
 		dispatch_assert_queue(Q[q].q); RES.counters[QC_ASSERTS]++;
@@ -580,7 +589,11 @@ static void run_one(qop *op, int client, qitem *from) {
 		// 3: block object without flags through the call of its kind
 		dispatch_block_t bo = NULL;
 		if (op->form == 2) bo = dispatch_block_create(DISPATCH_BLOCK_BARRIER, ^{ item_body(it); });
-		else if (op->form == 3) bo = dispatch_block_create(0, ^{ item_body(it); });
+		else if (op->form == 3) {
+			// flags that do not change what the block means (QoS handling only)
+			static const dispatch_block_flags_t bf[] = { 0, 0, DISPATCH_BLOCK_ASSIGN_CURRENT, DISPATCH_BLOCK_INHERIT_QOS_CLASS, DISPATCH_BLOCK_ENFORCE_QOS_CLASS, DISPATCH_BLOCK_NO_QOS_CLASS, DISPATCH_BLOCK_DETACHED };
+			bo = dispatch_block_create(bf[(RC.seed >> 17 ^ (uint64_t)it->id * 7) % 7], ^{ item_body(it); });
+		}
 		int k = op->kind;
 		if (op->form == 2) k = k == OP_BARRIER_ASYNC ? OP_ASYNC : k == OP_BARRIER_SYNC ? OP_SYNC : OP_AAW;
 		switch (k) {
